@@ -123,9 +123,8 @@ theorem inv_of_valid (P : Params) (c : List Block) (h : ValidChain P c) : Inv c 
         · exact ih.gone o h1 e hmem
         · intro heq
           have h2 : (e.txid, e.idx) = o := heq
-          apply hnot
-          simp only [List.contains_eq_mem, h2]
-          simpa using h1
+          rw [h2] at hnot
+          simp [h1] at hnot
       · obtain ⟨tx, htx, hid⟩ := mem_newEntries hnew
         intro heq
         have ho1 : o.1 ∈ (replay c).txs.map (·.1) := by
@@ -196,21 +195,6 @@ theorem C06_block_reject_missing (s : NState) (b : Block) (o : Nat × Nat) (ho :
 
 /-- **C06 (pool).** Starting from the initial state, after any sequence of block deliveries and
     transaction submissions the pool holds no two transactions with a common input. -/
-inductive Op | deliver (b : Block) | submit (tx : Tx)
-
-def run (s : NState) : List Op → NState
-  | [] => s
-  | .deliver b :: r => run (processBlock s b).1 r
-  | .submit tx :: r => run (submit s tx).1 r
-
-theorem good_run (s : NState) (ops : List Op) (h : Good s) : Good (run s ops) := by
-  induction ops generalizing s with
-  | nil => exact h
-  | cons op r ih =>
-    cases op with
-    | deliver b => exact ih _ (good_processBlock s b h)
-    | submit tx => exact ih _ (good_submit s tx h)
-
 theorem C06_pool (P : Params) (g : Block) (ops : List Op) :
     (poolIns (run (initState P g) ops).pool).Nodup :=
   (good_run _ ops (good_init P g)).pool
@@ -224,7 +208,7 @@ def exB1 : Block :=
   { id := 2, prev := 1, height := 1,
     txs := [{ id := 20, kind := .coinbase, pver := 0, ins := [], outs := [{ addr := 1, value := 150 }] },
             { id := 21, kind := .other, pver := 0, ins := [(10, 0)], outs := [{ addr := 2, value := 900 }] }] }
-def exP : Params := { reward := 50, maturity := 1, minFee := 100 }
+def exP : Params := { reward := 50, maturity := 0, minFee := 100 }
 /-- the same coin again, on top of `exB1` -/
 def exB2 : Block :=
   { id := 3, prev := 2, height := 2,
